@@ -497,7 +497,7 @@ def build_specs(case, env):
         k = sp["factory"]
         name = sp["name"]
         multi = k in ("glob_file", "foreach_collect", "foreach_execute", "container_execute", "container_collect")
-        base_body[name] = SeededRegistryPoint(name, H("rp", name), multi_output=multi, raw=(k == "raw_file"))
+        base_body[name] = SeededRegistryPoint(name, H("rp", name), multi_output=multi, raw=(k == "raw_file"), **sp.get("rp_flags", {}))
         hh = H("impl", name)
 
         def helper_ds(suffix, fn):
@@ -534,8 +534,10 @@ def build_specs(case, env):
             def mem(broker, sp=sp):
                 if sp["fail"]:
                     raise ValueError("in-memory datasource %s failed" % sp["name"])
+                fl = sp.get("rp_flags", {})
                 return DatasourceProvider(list(sp["lines"]), relative_path=sp["relative_path"], save_as=sp["save_as"],
-                                          ctx=broker.get(Ctx), cleaner=broker.get("cleaner"))
+                                          ctx=broker.get(Ctx), cleaner=broker.get("cleaner"),
+                                          no_obfuscate=fl.get("no_obfuscate"), no_redact=fl.get("no_redact", False))
             g = Gds(name, mem, hh)
             datasource(Ctx)(g)
             impl_body[name] = g
@@ -1231,3 +1233,174 @@ class C11(Check):
 
 def get_check(prop):
     return {"C06": C06, "C11": C11}[prop](prop)
+
+
+# ------------------------------------------------------------------------------------------------
+# end-to-end mode: collection WITH a Cleaner and filters (serves the end-to-end clauses of C07, C08, C10)
+# ------------------------------------------------------------------------------------------------
+E2E_FILTER_WORDS = ["ERROR", "link", "inet", "gizmo", "WARN", "ether"]
+
+
+def gen_e2e(st, tier, flavour):
+    """A W3 cleaner case (configuration + typed-segment specs) turned into a simulated host collection."""
+    from worlds import w3_cleaner as w3
+    c3 = w3.gen_case(st, tier, "C08")
+    rp = st.prog
+    rk = st.knob
+    case = {"w": "w2e", "flavour": flavour, "cfg": c3["cfg"], "fqdn": c3["fqdn"], "keywords": c3["keywords"],
+            "patterns": c3["patterns"], "regime": c3["regime"], "specs": [], "hash_seed": rk.getrandbits(32)}
+    for i, s3 in enumerate(c3["specs"]):
+        sp = {"name": "s%02d" % i, "factory": rp.choice(["simple_file", "simple_file", "simple_command", "memory", "glob_file"]),
+              "lines": s3["lines"], "no_obfuscate": s3["no_obfuscate"], "no_redact": s3["no_redact"],
+              "filterable": False, "filters": []}
+        if sp["factory"] != "memory" and rk.random() < 0.4:
+            sp["filterable"] = True
+            if rk.random() < 0.8:
+                sp["filters"] = rk.sample(E2E_FILTER_WORDS, rk.randint(1, 3))
+        case["specs"].append(sp)
+    return case
+
+
+def run_e2e(case, flavour):
+    from worlds import w3_cleaner as w3
+    stats = {"faults_fired": {}, "probes": {"e2e_collections": 1}}
+    viols = []
+    log = []
+    env_case = {"root_mode": "tree", "files": {}, "outside": {}, "links": [], "table": {}, "specs": [], "rm_conf": {},
+                "faults": [], "corrupt": [], "flavour": "E2E", "hash_seed": case.get("hash_seed", 0)}
+    texts = {}
+    for sp in case["specs"]:
+        raw = [w3.text_of(segs) for segs in sp["lines"]]
+        texts[sp["name"]] = raw
+        s2 = {"name": sp["name"], "factory": sp["factory"], "save_as": None, "fail": False}
+        if sp["factory"] == "simple_file":
+            rel = "var/data/%s.txt" % sp["name"]
+            env_case["files"][rel] = {"lines": raw, "nl": True}
+            s2["path"] = "/" + rel
+        elif sp["factory"] == "glob_file":
+            rel = "var/globbed/%s/a.conf" % sp["name"]
+            env_case["files"][rel] = {"lines": raw, "nl": True}
+            s2["patterns"] = ["/var/globbed/%s/*.conf" % sp["name"]]
+        elif sp["factory"] == "simple_command":
+            cmd = "/bin/show %s" % sp["name"]
+            env_case["table"][cmd] = {"out": "\n".join(raw) + ("\n" if raw else ""), "rc": 0, "duration": 0.1}
+            s2["cmd"] = cmd
+        else:
+            s2["lines"] = raw
+            s2["relative_path"] = "memory/%s" % sp["name"]
+        s2["rp_flags"] = {"filterable": sp["filterable"], "no_obfuscate": list(sp["no_obfuscate"]), "no_redact": sp["no_redact"]}
+        env_case["specs"].append(s2)
+    env = Env(env_case)
+    try:
+        env.materialise()
+        with registry.scope():
+            with Seams(env):
+                Ctx, rps, impls = build_specs(env_case, env)
+                for sp in case["specs"]:
+                    if sp["filters"]:
+                        filters.add_filter(rps[sp["name"]], list(sp["filters"]))
+                cfg = w3.Cfg(**dict(case["cfg"]))
+                from insights.cleaner import Cleaner
+                cleaner = Cleaner(cfg, w3.rm_conf_of(case), fqdn=case["fqdn"])
+                fs.touch(os.path.join(env.out, "insights_archive.txt"))
+                broker = dr.Broker()
+                ctx = Ctx(env.root, env_case["table"], env.clock, env.tmp)
+                broker[Ctx] = ctx
+                broker["cleaner"] = cleaner
+                broker["redact_config"] = w3.rm_conf_of(case)
+                broker["client_config"] = cfg
+                graph = {}
+                for r in rps.values():
+                    graph.update(dr.get_dependency_graph(r))
+                h = Hydration(env.out, ctx)
+                broker.add_observer(h.make_persister(set(rps.values())))
+                escaped = None
+                try:
+                    dr.run_all(graph, broker, None)
+                except HarnessError:
+                    raise
+                except Exception as e:
+                    escaped = e
+                if escaped is not None:
+                    viols.append(V(flavour + ".e2e", "collection-raised:%s" % type(escaped).__name__, "collection with a cleaner raised %r" % (escaped,)))
+                final = w3.mappings(cleaner)
+                issued = dict((k, set(o for _, o in v)) for k, v in final.items())
+                pats = w3.py_patterns(case)
+                short = case["fqdn"].split(".")[0]
+                c = case["cfg"]
+                meta = os.path.join(env.out, "meta_data")
+                for sp in case["specs"]:
+                    name = sp["name"]
+                    fq = dr.get_name(rps[name])
+                    mp = os.path.join(meta, fq + ".json")
+                    doc = json.load(open(mp)) if os.path.exists(mp) else None
+                    res = (doc or {}).get("results")
+                    items = res if isinstance(res, list) else ([res] if res else [])
+                    stored = []
+                    for it in items:
+                        dp = os.path.join(env.out, "data", it["object"]["relative_path"])
+                        if os.path.isfile(dp):
+                            stored.append(open(dp, encoding="utf-8").read().split("\n"))
+                    log.append((name, [len(x) for x in stored], sorted(type(e).__name__ for e in broker.exceptions.get(rps[name], []))))
+                    raw = texts[name]
+                    # ---- C07: a filterable spec without filters is not collected on a host at all
+                    if sp["filterable"] and not sp["filters"]:
+                        stats["probes"]["e2e_filterable_specs_without_filters"] = stats["probes"].get("e2e_filterable_specs_without_filters", 0) + 1
+                        if stored or rps[name] in broker:
+                            viols.append(V("C07.e2e", "collected-without-filters:%s" % sp["factory"],
+                                           "filterable spec %s (%s) has no filter but was collected into the archive" % (name, sp["factory"])))
+                        continue
+                    for lines in stored:
+                        # ---- C10: never stored empty
+                        if not any(l.strip() for l in lines):
+                            viols.append(V("C10.e2e", "spec-stored-empty:%s" % sp["factory"], "spec %s was stored with no non-blank line: %r" % (name, lines)))
+                        # ---- C07: kept non-empty lines contain a filter
+                        if sp["filters"]:
+                            stats["probes"]["e2e_filtered_specs_stored"] = stats["probes"].get("e2e_filtered_specs_stored", 0) + 1
+                            for l in lines:
+                                if l and not any(f in l for f in sp["filters"]):
+                                    viols.append(V("C07.e2e", "stored-line-without-filter:%s" % sp["factory"], "spec %s: stored line %r contains none of %r" % (name, l, sp["filters"])))
+                                    break
+                        # ---- C08: nothing sensitive in what was written
+                        noobf = sp["no_obfuscate"]
+                        stats["probes"]["e2e_data_files_scanned"] = stats["probes"].get("e2e_data_files_scanned", 0) + 1
+                        ips = w3.planted({"specs": [sp]}, ("ip",))
+                        macs = w3.planted({"specs": [sp]}, ("mac",))
+                        hosts = w3.planted({"specs": [sp]}, ("host", "fqdn"))
+                        secrets = [s[2] for segs in sp["lines"] for s in segs if s[0] == "pw"]
+                        abut = set()
+                        for segs in sp["lines"]:
+                            for j, s in enumerate(segs):
+                                if s[0] == "mac" and (w3.text_of(segs[:j])[-1:] in (":", "-") or w3.text_of(segs[j + 1:])[:1] in (":", "-")):
+                                    abut.add(s[1])
+                        for o in lines:
+                            if not sp["no_redact"]:
+                                for kind, p in pats:
+                                    if (kind == "plain" and p in o) or (kind == "regex" and __import__("re").search(p, o)):
+                                        viols.append(V("C08.e2e", "pattern-line-written:%s" % sp["factory"], "archive line %r matches exclusion pattern %r" % (o, p)))
+                            if "keyword" not in noobf:
+                                for k in case["keywords"]:
+                                    if k in o:
+                                        viols.append(V("C08.e2e", "keyword-written:%s" % sp["factory"], "keyword %r written to the archive in %r" % (k, o)))
+                            if "password" not in noobf:
+                                for sec in secrets:
+                                    if sec in o:
+                                        viols.append(V("C08.e2e", "password-secret-written:%s" % sp["factory"], "secret %r written to the archive in %r" % (sec, o)))
+                            if c["obfuscate"] and "ip" not in noobf:
+                                for ip in ips:
+                                    if ip not in issued["ip"] and w3.occurs_token(ip, o, "0123456789."):
+                                        viols.append(V("C08.e2e", "ipv4-written:%s" % sp["factory"], "address %r written to the archive in %r" % (ip, o)))
+                            if c["obfuscate"] and c["obfuscate_hostname"] and "hostname" not in noobf:
+                                for hname in hosts + [case["fqdn"], short]:
+                                    if hname not in issued["host"] and hname in o:
+                                        viols.append(V("C08.e2e", "hostname-written:%s" % sp["factory"], "host name %r written to the archive in %r" % (hname, o)))
+                            if c["obfuscate"] and c["obfuscate_mac"] and "mac" not in noobf:
+                                for m in macs:
+                                    if m not in issued["mac"] and m not in abut and w3.occurs_token(m, o, "0123456789abcdefABCDEF_" + w3.WORD):
+                                        viols.append(V("C08.e2e", "mac-written:%s" % sp["factory"], "MAC %r written to the archive in %r" % (m, o)))
+    finally:
+        env.close()
+    viols = [v for v in viols if v["oracle"].startswith(flavour)]
+    dg = digest([log, [(v["oracle"], v["cls"]) for v in viols]])
+    return {"digest": dg, "sig": dg, "violations": viols, "stats": stats, "nontrivial": True, "sim_seconds": env.clock.elapsed(),
+            "distinct": {}}
